@@ -250,11 +250,6 @@ theorem raises_fseekRel (k : Int) : Raises Injected (fseekRel k) := by
   intro e s err s' h; exact Raises.fseek _ e s err s' h
 theorem raises_ftruncateHere : Raises Injected ftruncateHere := by
   intro e s err s' h; exact Raises.ftruncate _ e s err s' h
-theorem raises_freadInt (n : Int) : Raises Injected (freadInt n) := by
-  intro e s err s' h
-  unfold freadInt at h
-  split at h <;> exact Raises.fread _ e s err s' h
-
 theorem raises_verifyFileobj : Raises SaveErrC verifyFileobj := by
   unfold verifyFileobj
   apply Raises.bind
@@ -359,11 +354,13 @@ theorem raises_locateM : Raises SaveErrC locateM := by
       · exact Raises.raise _ sMut
       · split
         · exact Raises.raise _ sMut
-        · apply Raises.bind ((Raises.fseek _).weaken fun _ _ => sInj); intro _
-          apply Raises.bind (raises_fixBrokenM _ _); intro start
-          apply Raises.bind ((Raises.fseek _).weaken fun _ _ => sInj); intro _
-          apply Raises.bind ((raises_freadInt _).weaken fun _ _ => sInj); intro _
-          exact Raises.pure _ _
+        · split
+          · exact Raises.raise _ sMut
+          · apply Raises.bind ((Raises.fseek _).weaken fun _ _ => sInj); intro _
+            apply Raises.bind (raises_fixBrokenM _ _); intro start
+            apply Raises.bind ((Raises.fseek _).weaken fun _ _ => sInj); intro _
+            apply Raises.bind ((Raises.fread _).weaken fun _ _ => sInj); intro _
+            exact Raises.pure _ _
   · apply Raises.bind ((Raises.fseek _).weaken fun _ _ => sInj); intro _
     apply Raises.bind ((Raises.fread _).weaken fun _ _ => sInj); intro d
     split
@@ -374,10 +371,12 @@ theorem raises_locateM : Raises SaveErrC locateM := by
       · exact Raises.raise _ sMut
       · apply Raises.bind ((Raises.fseek _).weaken fun _ _ => sInj); intro _
         apply Raises.bind raises_readIsApe; intro hasFooter
-        apply Raises.bind ((Raises.fseek _).weaken fun _ _ => sInj); intro _
-        apply Raises.bind ((Raises.fseek _).weaken fun _ _ => sInj); intro _
-        apply Raises.bind ((raises_freadInt _).weaken fun _ _ => sInj); intro _
-        exact Raises.pure _ _
+        split
+        · exact Raises.raise _ sMut
+        · apply Raises.bind ((Raises.fseek _).weaken fun _ _ => sInj); intro _
+          apply Raises.bind ((Raises.fseek _).weaken fun _ _ => sInj); intro _
+          apply Raises.bind ((Raises.fread _).weaken fun _ _ => sInj); intro _
+          exact Raises.pure _ _
 
 theorem raises_removeOldM (B : Nat) (loc : Option Loc) : Raises SaveErrC (removeOldM B loc) := by
   unfold removeOldM
